@@ -5,4 +5,5 @@ cd /verif || exit 2
 if [ ! -x bin/govc ] || [ -n "$(find govc -newer bin/govc -name '*.go' 2>/dev/null | head -1)" ]; then
   (cd govc && go build -o /verif/bin/govc .) || exit 2
 fi
+if [ "$1" = "C06" ]; then exec ./bin/govc frame -prop C06 -tier "${2:-quick}"; fi
 exec ./bin/govc check -prop "$1" -tier "${2:-quick}"
